@@ -13,12 +13,12 @@ import (
 // THREADS: goroutine roots, per-function thread sets, must-hold locksets.
 
 type threads struct {
-	w       *World
-	Roots   []*ssa.Function            // goroutine entry functions of the main package, plus main and init
-	GoSites map[*ssa.Function][]*ssa.Go // root -> go statements starting it
-	Of      map[*ssa.Function]map[string]bool // function -> names of roots reaching it
-	entry   map[*ssa.Function]map[string]bool // must-hold lockset on entry
-	intra   map[ssa.Instruction]map[string]bool
+	w         *World
+	Roots     []*ssa.Function                   // goroutine entry functions of the main package, plus main and init
+	GoSites   map[*ssa.Function][]*ssa.Go       // root -> go statements starting it
+	Of        map[*ssa.Function]map[string]bool // function -> names of roots reaching it
+	entry     map[*ssa.Function]map[string]bool // must-hold lockset on entry
+	intra     map[ssa.Instruction]map[string]bool
 	hasCaller map[*ssa.Function]bool
 }
 
